@@ -13,6 +13,7 @@ CONSTANTS
   MaxNoise = 0
   MaxCrashes = 0
   Conc = FALSE
+  RestorerFixed = TRUE
   MaxProofDepth = 128
   Excuse <- AllExcuses
 VIEW CreateView
